@@ -35,6 +35,7 @@ type c08Scenario struct {
 	Text   string    `json:"text,omitempty"` // alternatively: one program text (corpus)
 	Name   string    `json:"name,omitempty"`
 	Flags  []string  `json:"flags,omitempty"` // cli configurations: further command-line flags next to -sandbox
+	Texts  []string  `json:"texts,omitempty"` // several evaluations, one after the other, in ONE interpreter
 }
 
 // scenarios name the canary by placeholder; each process has its own real canary inside the scratch directory
@@ -319,6 +320,46 @@ func execC08(body json.RawMessage) *kernel.Result {
 		res.Sig("text|" + sc.Config + "|" + sc.Name)
 		run("script:"+sc.Name, sc.Text)
 	}
+	if len(sc.Texts) > 0 {
+		// one interpreter for all texts: what an earlier evaluation defined must not open the wall for a later one
+		res.Sig("texts|" + sc.Config + "|" + sc.Name)
+		env, rootEnv := c08Env(sc.Config)
+		verifos.Reset()
+		for _, t := range sc.Texts {
+			res.Execs++
+			func() {
+				defer func() {
+					if r := recover(); r != nil {
+						if ex, isExit := r.(verifos.ExitSentinel); isExit {
+							verifos.Log = append(verifos.Log, verifos.Access{Op: "os.Exit(reached)", Args: []string{fmt.Sprint(ex.Code)}})
+						}
+					}
+				}()
+				zy.Eval(env, realPaths(t)+" ", 100000)
+			}()
+		}
+		closeQuietly(rootEnv)
+		var crossed []string
+		ops := map[string]bool{}
+		for _, a := range verifos.Log {
+			if isCrossing(a.Op) {
+				crossed = append(crossed, a.Op+"("+strings.ReplaceAll(strings.Join(a.Args, ","), realCanaryDir, canaryDir)+")")
+				ops[a.Op] = true
+			}
+		}
+		if len(crossed) > 0 {
+			var opl []string
+			for o := range ops {
+				opl = append(opl, o)
+			}
+			sort.Strings(opl)
+			fail("rebind|"+sc.Name+"|"+strings.Join(opl, "+"), "sandbox config %s: the evaluations %q, one after the other in one interpreter, reached the outside world: %v", sc.Config, sc.Texts, crossed)
+		}
+		if msg := canaryIntact(); msg != "" {
+			fail("rebind|canary", "sandbox config %s: after the evaluations %q: %s", sc.Config, sc.Texts, msg)
+			setupCanary()
+		}
+	}
 	for _, c := range sc.Calls {
 		res.Sig(fmt.Sprintf("%s|%s|%s", sc.Config, c.Name, c.Route))
 		run(c.Name, c08Program(c))
@@ -563,6 +604,25 @@ func cliFlagSets() [][]string {
 	return out
 }
 
+// genC08Rebind: a script first binds the name of something restricted (or of anything the guards might look up) to a
+// harmless value of its own, then, in later evaluations of the same interpreter, tries the restricted forms
+func genC08Rebind(r *kernel.RNG, tier string, i int) interface{} {
+	cfgs := []string{"bare", "std", "std-dup", "bare-clone"}
+	cfg := cfgs[i%len(cfgs)]
+	pool := append(append([]string{}, restrictedNames()...), "source", "include", "req", "import", "sys", "system", "sandboxed", "sandbox", "readf", "owritef", "getenv", "exit")
+	n := pool[(i/len(cfgs))%len(pool)]
+	sc := &c08Scenario{Config: cfg, Name: n}
+	sc.Texts = append(sc.Texts, r.Pick([]string{"(defn %s [p] p)", "(def %s 1)", "(def %s (fn [& a] a))", "(defmac %s [p] p)", "(def %s true)"}))
+	sc.Texts[0] = fmt.Sprintf(sc.Texts[0], n)
+	probes := []string{
+		fmt.Sprintf("(include %q)", canaryFile), fmt.Sprintf("(source %q)", canaryFile), fmt.Sprintf("(%s %q)", n, canaryFile), "(req secret)",
+		fmt.Sprintf("(import %q)", canaryFile), fmt.Sprintf("(system \"echo pwned > %s/pwned\")", canaryDir), "(sys echo hi)", fmt.Sprintf("(getenv %q)", canaryEnv),
+		fmt.Sprintf("(readf %q)", canaryFile), fmt.Sprintf("(owritef %q \"x\")", canaryDir+"/new.txt"), fmt.Sprintf("(eval (quote (include %q)))", canaryFile), "(exit 3)",
+	}
+	sc.Texts = append(sc.Texts, probes...)
+	return sc
+}
+
 var c08DotCommands = []string{".cd @CANARYDIR@", ".cd /", ".dump", ".dump car", ".ls", ".gls", ".verb", ".debug", ".undebug", ".quit", ".cd", ".help"}
 
 // genC08Cli: lines for the tool's sandbox REPL: its dot-commands, outside-world names with canary arguments, restricted names
@@ -730,6 +790,13 @@ func init() {
 				}
 				return 90
 			}, Generate: genC08Cli, Execute: execC08, Shrink: shrinkC08, Isolated: true},
+			{Name: "rebind", Count: func(tier string) int {
+				n := (len(restrictedNames()) + 12) * 4
+				if tier == "thorough" {
+					return n * 3
+				}
+				return n
+			}, Generate: genC08Rebind, Execute: execC08, Shrink: shrinkC08},
 			{Name: "sigils", Count: func(tier string) int {
 				if tier == "thorough" {
 					return 60
